@@ -283,7 +283,41 @@ func (w *c09World) Run(c *kernel.RunCtx) {
 		c.End()
 		c.Count("probe.script_over_64k", 1)
 	}
+	many := c.RunIdx%40 == 17
+	if many {
+		// quota: more than a thousand well-formed elements behind a count, so that "reserve the rest once the
+		// list looks genuine" strategies are reachable
+		c.Begin("many")
+		n := 1030 + c.Choose(120)
+		t := txs[0]
+		if c.Bool(1, 2) {
+			for i := 0; i < n; i++ {
+				t.Outs = append(t.Outs, models.ROut{Sats: uint64(i)})
+			}
+		} else {
+			for i := 0; i < n; i++ {
+				t.Ins = append(t.Ins, models.RIn{Vout: uint32(i), Seq: 0xffffffff})
+			}
+		}
+		c.End()
+		c.Count("probe.over_1000_elements", 1)
+	}
 	data, fields, ends := models.EncodeList(txs, extended, container == 2, nil)
+	if many {
+		var cf []models.Field
+		for _, f := range fields {
+			if !strings.HasSuffix(f.Name, "_len") {
+				cf = append(cf, f)
+			}
+		}
+		fields = cf // only the counts are inflated in these runs (a thousand script-length fields add nothing new)
+	}
+	if c.RunIdx%499 == 3 {
+		w.bigBlockThenForgedCount(c)
+		if c.Failed() {
+			return
+		}
+	}
 	plans := []kernel.Plan{{Kind: 0}, {Kind: 1, EOFWith: true}, kernel.DrawPlan(c.Tape)}
 	// seeded fault positions, drawn up front so enumeration below is replayable
 	boundary := func() int {
@@ -502,6 +536,9 @@ func (w *c09World) Run(c *kernel.RunCtx) {
 		w.subUnits(c, txs[0], extended, plans)
 		return
 	}
+	if many {
+		return
+	}
 	// 4. the field decoders on their own sub-streams
 	w.subUnits(c, txs[0], extended, plans)
 	if c.Failed() {
@@ -509,6 +546,35 @@ func (w *c09World) Run(c *kernel.RunCtx) {
 	}
 	// 5. JSON decoders
 	w.jsonDocs(c, txs, data, fields, extended, container)
+}
+
+// bigBlockThenForgedCount: state left behind by an earlier, genuine decode must not be trusted later. A block
+// list of more than a million minimal transactions is decoded (successfully), then a few bytes claiming as many
+// are fed to the same entry point.
+func (w *c09World) bigBlockThenForgedCount(c *kernel.RunCtx) {
+	n := 1200000 + c.Choose(1000)
+	one, _ := (&models.RTx{Version: 1}).Encode(false, nil) // 10 bytes
+	blk := append([]byte(nil), models.VarInt(uint64(n))...)
+	for i := 0; i < n; i++ {
+		blk = append(blk, one...)
+	}
+	var l bt.Txs
+	var err error
+	c.Exec()
+	if pn := catch(func() { _, err = l.ReadFrom(kernel.NewStream(blk, kernel.Plan{})) }); pn != "" || err != nil || len(l) != n {
+		c.Fail("decode", "Txs.ReadFrom", "a genuine block list of %d minimal transactions was not decoded: panic=%q err=%v len=%d", n, pn, err, len(l))
+		return
+	}
+	l = nil
+	c.Count("probe.million_tx_block_decoded", 1)
+	for _, claim := range []uint64{uint64(n), 1 << 21, 1 << 24} {
+		forged := append(models.VarInt(claim), one...)
+		r := runBinary(c, epTxsReadFrom, forged, kernel.Plan{Kind: 1}, -1, -1, false, true)
+		judge(c, r, fmt.Sprintf("count %d claimed by %d bytes after a genuine %d-transaction block was decoded in this process", claim, len(forged), n), true, false, true)
+		if c.Failed() {
+			return
+		}
+	}
 }
 
 func (w *c09World) subUnits(c *kernel.RunCtx, m *models.RTx, extended bool, plans []kernel.Plan) {
